@@ -24,7 +24,8 @@ LEVEL_TEXT = ("Exhaustive core: all 13 448 boards with at most 4 tiles (8 shapes
               "1 160 boards with <= 3 tiles). Beyond it: sampled boards to 6x6 with arbitrary rewards and break "
               "probabilities, boards from the random generator with and without force-down, and the manual entry point. "
               "Each emitted game is compared with an independently written abstract model by partition-refinement "
-              "bisimulation from the initial states. Exploration with an exhaustive finite core.")
+              "bisimulation from the initial states. Exploration with an exhaustive finite core."
+              " Added while validating sensitivity: generator boards of 9 to 400 tiles around typical size thresholds (group offsets beyond the interpreter's small-integer cache).")
 LEVEL_NOTE = ("Trusted: the ~60-line rule model and the partition refinement in harness/roborta_model.py; the reading of "
               "'robot failure leaves the robot on its tile' as re-entering the tile (a loose tile may break again), which "
               "is what the code does on every multi-column board where the property is not in doubt; chance "
